@@ -108,6 +108,9 @@ func (v DenseInt16Vector) ReverseOrder() {
   }
 }
 func (v DenseInt16Vector) Slice(i, j int) Vector {
+  if j > len(v) {
+    panic(fmt.Errorf("slice [%d:%d] out of bounds for vector of dimension %d", i, j, len(v)))
+  }
   return v[i:j]
 }
 func (v DenseInt16Vector) Swap(i, j int) {
@@ -161,6 +164,9 @@ func (v DenseInt16Vector) ConstAt(i int) ConstScalar {
   return Int16{&v[i]}
 }
 func (v DenseInt16Vector) ConstSlice(i, j int) ConstVector {
+  if j > len(v) {
+    panic(fmt.Errorf("slice [%d:%d] out of bounds for vector of dimension %d", i, j, len(v)))
+  }
   return v[i:j]
 }
 func (v DenseInt16Vector) AsConstMatrix(n, m int) ConstMatrix {
